@@ -30,6 +30,11 @@ CLAIMED["C12"] = ("exploration",
  "Seeded search over (mapping set within the Enigma proviso, insertion orders, writer/reader schedules, directory scenario, one fault). T0: text read by an independent reader equals the model; real round trip (stream and directory) equals the model; write_one per root concatenates to write_all; one file per root; two writes give identical trees. T1: schedules and creation order change nothing. T2: writer Err leaves a prefix, Ok means complete; a read that succeeds on a damaged stream/tree equals the reference reading of what is there; after heal the answer is the model again. Sampling, not proof.",
  "trusted: refmap Enigma reader/writer, SimReader/SimWriter, SimDir (tmpfs; listing order = reverse creation order on this kernel), walkdir; workload restricted to what Enigma can carry (see evidence assumptions)",
  "DESIGN.md section 4 C12")
+CLAIMED["C05"] = ("exploration",
+ "deterministic simulation: the mappings directory as a simulated disk (tmpfs scratch dir with drawn file-creation = listing order, malformed layouts, files deleted / torn / flipped / misdirected between resolve and apply_diffs, heal), operation sequences judged against a reference version-graph model evaluated over the bytes on disk",
+ "Seeded search over (rooted graph of 1-8 versions with plain and split names, edit history per edge, creation order, malformation, query sequence interleaved with damage and heals). Every get/apply_diffs answer must equal the reference (root contracted, diffs along a shortest path, extension) for some shortest path; malformed directories must be refused; a directory whose lookup key is claimed twice must answer identically under three creation orders; under damage: Err, the reference reading of the current bytes, or the pre-damage answer; after heal the healthy answer. Sampling, not proof.",
+ "trusted: c05 reference graph model, refdiff, refmap, SimDir (tmpfs lists newest-first on this kernel; the observed listing is logged), petgraph is exercised as real code",
+ "DESIGN.md section 4 C05")
 PENDING = {}  # id -> reason (claimed in DESIGN.md but the check is not built yet)
 
 def main():
